@@ -7,7 +7,7 @@ NOT_APPLICABLE = {
     'C14': 'quantifies over rayon thread schedules; Kani has no threads and Verus cannot see rayon; the reachable fragment (commutativity/associativity of vector addition) is decided under C13 (DESIGN.md §5)',
     'C15': 'statement about exact probability laws over all random tapes; neither verifier has a probabilistic logic and the num-bigint/num-rational arithmetic would be all assumed contracts (DESIGN.md §5)',
 }
-for _p in ['C01', 'C02', 'C03', 'C04', 'C05', 'C06', 'C07', 'C08', 'C10', 'C11', 'C12', 'C16', 'C17', 'C18', 'C19', 'C20']:
+for _p in ['C01', 'C02', 'C03', 'C04', 'C05', 'C06', 'C10', 'C11', 'C12', 'C16', 'C17', 'C18', 'C19', 'C20']:
     NOT_APPLICABLE[_p] = _PENDING
 
 TEXT = {
@@ -27,5 +27,17 @@ TEXT = {
         'note': 'Field255 element addition is fiat-crypto (assumed). Bounded stand-ins are listed in evidence coverage.bounded[] and are not counted in obligations/discharged.',
         'technique': 'function contracts with frame conditions (Kani harnesses on the real crate) + Verus sequence lemmas over the contracts',
         'design_ref': 'DESIGN.md §4 C13',
+    },
+    'C07': {
+        'text': 'Partial, bounded where stated. Contracts "decode is total; an accepted string re-encodes to itself; encoded_len() equals the bytes produced; value round-trips" are discharged by Kani on the real codecs: integers and length-prefixed vectors (prefix full-domain), field elements of the three Montgomery fields (canonical range, mask, little-endian; complete), Prio3 messages and Poplar1 sketch/state tags at one instance each (bounded; the structure is instance-independent), Poplar1AggregationParam::encoded_len for every level (complete).',
+        'note': 'Not decided: Field255-bearing messages, IdpfPublicShare bit packing, ping-pong/Prio2 (see C12, C19). Message-level harnesses use the identity instance of the Montgomery abstraction.',
+        'technique': 'assume-guarantee contract harnesses on the real codecs (Kani/CBMC), symbolic byte strings',
+        'design_ref': 'DESIGN.md §4 C07',
+    },
+    'C08': {
+        'text': 'Partial, bounded in input size. For the decoders listed in the evidence every panic/overflow/out-of-bounds/unwrap obligation that Kani generates is discharged for arbitrary bytes up to the stated size with all header fields full-domain (every usize length, every tag byte, every aggregator id); over-long length prefixes are rejected before any allocation. One known finding: decode_fixlen_items does not terminate for a zero-width item type.',
+        'note': 'Bitvec- and Field255-touching decoders are out of reach (DESIGN.md R3).',
+        'technique': 'verifier-generated safety obligations of the decoder bodies (Kani/CBMC) under symbolic input bytes',
+        'design_ref': 'DESIGN.md §4 C08',
     },
 }
